@@ -32,6 +32,99 @@ def expected_lines(steps, ws):
     return out
 
 
+ALIASED_UNION_MODEL = """O: int?
+U1: [int, string]
+UN: [null, int, string]
+R: !record
+  fields:
+    a: [O, string]
+    b: [null, O, string]
+    c: [null, U1, float]
+    d: [UN, float]
+    e: [null, UN, float]
+    g: [U1, bool]
+    h: [null, U1, bool]
+    i: !vector {items: [O, bool]}
+P: !protocol
+  sequence:
+    r: R
+"""
+ALIASED_UNION_DRIVER = r"""
+import sys, io, json
+sys.path.insert(0, sys.argv[1])
+import au as t
+G=t.U1OrBool; I=t.OOrBool; A=t.OOrString; U=t.U1OrFloat32; N=t.UNOrFloat32
+vals = [
+ t.R(a=A.O(None), b=None, c=None, d=N.UN(None), e=None, g=G.Bool(True), h=None, i=[]),
+ t.R(a=A.O(3), b=A.O(None), c=U.U1(t.U1.Int32(1)), d=N.UN(t.UN.Int32(4)), e=N.UN(None), g=G.U1(t.U1.Int32(9)), h=G.U1(t.U1.String('w')), i=[I.O(None), I.O(5), I.Bool(False)]),
+ t.R(a=A.String("x"), b=A.O(7), c=U.Float32(1.5), d=N.Float32(0.5), e=N.UN(t.UN.String("s")), g=G.U1(t.U1.String('k')), h=G.Bool(False), i=[I.Bool(True)]),
+ t.R(a=A.String("x"), b=A.String("y"), c=U.U1(t.U1.String("q")), d=N.UN(t.UN.String("z")), e=N.Float32(2.0), g=G.Bool(False), h=G.U1(t.U1.Int32(-1)), i=[I.O(0)]),
+]
+out = []
+for v in vals:
+    b = io.BytesIO()
+    with t.BinaryPWriter(b) as w: w.write_r(v)
+    s = io.StringIO()
+    with t.NDJsonPWriter(s) as w: w.write_r(v)
+    s2 = io.StringIO(s.getvalue())
+    try:
+        with t.NDJsonPReader(s2) as r: back = r.read_r()
+        rt = "same" if back == v else "different: %r" % (back,)
+    except Exception as e:
+        rt = "error: %s: %s" % (type(e).__name__, e)
+    out.append({"bin": b.getvalue().hex(), "ndjson": s.getvalue(), "python_roundtrip": rt})
+print(json.dumps(out))
+"""
+
+
+def aliased_union_layer(ctx):
+    """union cases that are ALIASES of an optional or of another union (the only way to nest them): NDJSON written by generated
+    Python is read back by generated Python, converted to binary by generated C++ (must be the bytes Python wrote) and the binary
+    converted to NDJSON by generated C++ (must be the lines Python wrote).  Regression layer of /repo 012c699."""
+    import os
+    from vlib import sh, PY_VT
+    from ymodel import Package, prim
+    pkg = Package("Au")
+    pkg.protocols.append(("P", [("r", prim("int32"), False)]))      # only the protocol name is used (translator main)
+    gp = genrun.GenPackage(ctx, pkg, "aliasedunion", ndjson=True, cpp=True, model_text=ALIASED_UNION_MODEL)
+    rep = {"model": ALIASED_UNION_MODEL}
+    if not gp.generate():
+        ctx.report("generate-fails:aliased-union", "yardl fails on a valid model whose union cases are aliases of optionals / unions: %s"
+                   % gp.gen_out.strip()[-200:], dict(rep, output=gp.gen_out[-1500:]))
+        return
+    open(os.path.join(gp.dir, "drv.py"), "w").write(ALIASED_UNION_DRIVER)
+    rc, o, e = sh([PY_VT, os.path.join(gp.dir, "drv.py"), os.path.join(gp.dir, "python")], timeout=300)
+    if rc != 0:
+        ctx.report("python-error:aliased-union", "generated Python cannot write values of unions whose cases are aliases of optionals / unions: %s"
+                   % e.strip()[-200:], dict(rep, error=e[-1500:]))
+        return
+    vals = json.loads(o)
+    cpp = gp.cpp_build()
+    if not cpp:
+        ctx.report("cpp-compile:aliased-union", "generated C++ does not compile for unions whose cases are aliases of optionals / unions",
+                   dict(rep, error=gp.cpp_err[-2000:]))
+    for k, v in enumerate(vals):
+        b, nd = bytes.fromhex(v["bin"]), v["ndjson"]
+        lines = nd.splitlines()[1:]
+        ctx.case(("aliased-union", k), sample={"crafted": "union cases that are aliases of optionals / unions", "ndjson": lines,
+                                               "python_roundtrip": v["python_roundtrip"]})
+        r = dict(rep, value_index=k, python_ndjson=lines, python_binary_hex=v["bin"])
+        if v["python_roundtrip"] != "same":
+            ctx.report("roundtrip:py:aliased-union", "generated Python does not read back the NDJSON it wrote for a union whose case is an "
+                       "alias of an optional / union: %s" % v["python_roundtrip"][:200], r)
+        if cpp:
+            c1 = gp.cpp_call("P", "binary", "ndjson", b)
+            c2 = gp.cpp_call("P", "ndjson", "binary", nd.encode())
+            if not c1["ok"] or c1["out"].decode(errors="replace").splitlines()[1:] != lines:
+                ctx.report("cross:cpp-writes:aliased-union", "generated C++ writes different NDJSON from generated Python for the same value "
+                           "(union case = alias of optional / union): %s" % (c1["out"].decode(errors="replace").splitlines()[1:] if c1["ok"] else c1["err"][-200:]),
+                           dict(r, cpp_ndjson=c1["out"].decode(errors="replace"), cpp_error=c1["err"]))
+            if not c2["ok"] or c2["out"] != b:
+                ctx.report("cross:cpp-reads:aliased-union", "generated C++ does not turn the NDJSON generated Python wrote into the binary "
+                           "stream generated Python wrote (union case = alias of optional / union): %s" % (c2["err"][-200:] if not c2["ok"] else "different bytes"),
+                           dict(r, cpp_binary_hex=c2["out"].hex(), cpp_error=c2["err"]))
+
+
 def run(ctx):
     ctx.build_repo(need_hook=True)
     ok, failing, log = ctx.coq_props("C02")
@@ -45,6 +138,7 @@ def run(ctx):
         ctx.report("proof:" + str(failing), "theorem/dependency no longer checks: %s" % failing,
                    {"broken": failing, "log": log[-3000:]}, no_input=True)
     quick = ctx.tier == "quick"
+    aliased_union_layer(ctx)
     table = jm.kind_table(json.loads(ctx.hook_call(["tables"])))
     import c03
     pkgs = codec.build_packages(ctx, 2 if quick else 8, "j", cpp=True, ndjson=True)
